@@ -454,7 +454,7 @@ func (m *Machine) scanUF(t *Term) {
 // functions until the model evaluates natively to true.
 func (m *Machine) solve(extra *Term) (Result, Model) {
 	key, slice, svars := m.sliceKey(extra)
-	if ce, ok := queryCache.Load(key); ok {
+	if ce, ok := queryCache.Load(key); ok && !noCache {
 		e := ce.(*cacheEntry)
 		m.Stats.CacheHits++
 		if e.res != Sat {
@@ -566,6 +566,7 @@ type cacheEntry struct {
 type cacheKey struct{ a, b uint64 }
 
 var queryCache sync.Map
+var noCache = os.Getenv("GOSX_NOCACHE") != ""
 
 // ResetQueryCache empties the cross-path query cache (between harnesses).
 func ResetQueryCache() { queryCache = sync.Map{} }
